@@ -425,6 +425,71 @@ fn from_conversions() {
     sobl!(same, "conv.passes_the_source_bytes", "C09,C01");
     core::mem::forget(out);
 }
+// The SEMANTIC side of the conversions (the obligations above are structural): the real
+// conversion with nothing stubbed but the allocator entry point, which only COUNTS the
+// word-aligned requests (the crate's heap blocks; `String` / `Box<str>` ask for align 1). Owned
+// sources carry symbolic spare capacity - the result may depend on the text alone.
+unsafe extern "Rust" {
+    fn __rust_alloc(size: usize, align: usize) -> *mut u8;
+}
+static mut W_ALLOCS: usize = 0;
+static mut W_LAST: usize = 0;
+unsafe fn count_word_alloc(layout: core::alloc::Layout) -> *mut u8 {
+    unsafe {
+        if layout.align() == 8 {
+            W_ALLOCS += 1;
+            W_LAST = layout.size();
+        }
+        let p = __rust_alloc(layout.size(), layout.align());
+        kani::assume(!p.is_null());
+        p
+    }
+}
+
+// @harness name=from_conversions_e2e props=C09,C01 class=B bound="source text <= 20 bytes, spare capacity of owned sources <= 24" unwind=24 tier=quick fn=From<&str>,From<String>,From<&String>,From<Box<str>>,From<Cow<str>>,FromStr covers=conv.e2e_inline,conv.e2e_heap,conv.e2e_spare timeout=1500
+#[kani::proof]
+#[kani::stub(alloc::alloc::alloc, count_word_alloc)]
+fn from_conversions_e2e() {
+    arm_covers();
+    let text = "0123456789abcdefghij";
+    let k: usize = kani::any();
+    kani::assume(k <= text.len());
+    let src = &text[..k];
+    let spare: usize = kani::any();
+    kani::assume(spare <= 24);
+    let which: u8 = kani::any();
+    kani::assume(which <= 6);
+    let owned = |s: &str| {
+        let mut st = String::with_capacity(s.len() + spare);
+        st.push_str(s);
+        st
+    };
+    let st = owned(src);
+    let before = unsafe { W_ALLOCS };
+    let out: LeanString = match which {
+        0 => LeanString::from(src),
+        1 => LeanString::from(st),
+        2 => LeanString::from(&st),
+        3 => LeanString::from(alloc::boxed::Box::<str>::from(src)),
+        4 => LeanString::from(Cow::Borrowed(src)),
+        5 => LeanString::from(Cow::<str>::Owned(st)),
+        _ => <LeanString as core::str::FromStr>::from_str(src).unwrap(),
+    };
+    let n = unsafe { W_ALLOCS } - before;
+    cov!(k <= 16 && k > 0, "conv.e2e_inline");
+    cov!(k > 16, "conv.e2e_heap");
+    cov!(spare > 16 && (which == 1 || which == 5), "conv.e2e_spare");
+    obl!(text_is(&out, src.as_bytes()), "conv.result_text_is_the_source_text", "C01,C09");
+    if k <= 16 {
+        obl!(!out.is_heap_allocated() && n == 0, "conv.le_16_bytes_stay_inline_without_allocation", "C09");
+        obl!(out.capacity() == 16, "conv.le_16_bytes_capacity_16", "C09");
+    } else {
+        obl!(out.is_heap_allocated() && n == 1 && unsafe { W_LAST } == 16 + k, "conv.gt_16_bytes_exactly_one_exact_allocation", "C09");
+        obl!(out.capacity() == k, "conv.gt_16_bytes_capacity_is_len", "C09");
+    }
+    core::mem::forget(out);
+}
+
 static mut F_CALLS: usize = 0;
 static mut F_LEN: usize = 0;
 static mut F_BYTES: [u8; 20] = [0; 20];
